@@ -185,10 +185,17 @@ def _history(args):
             if op == "call-regex-fn":
                 import time as _t
                 _t.sleep(0.2)
+            t_eval = 0.0
             try:
+                import time as _t2
+                t_eval = _t2.time()
                 r = c.eval(src)
             except JSError as e:
                 r, err = None, type(e).__name__
+                if err == "TimeLimitError" and op in ("define-regex-fn", "call-regex-fn") and _t2.time() - t_eval >= 0.14:
+                    if op == "define-regex-fn":
+                        m["rx"] = True      # (the declaration is hoisted: rx exists even though its first call ran out of time)
+                    continue        # really out of time (overloaded machine): inconclusive for this step
             except BaseException as e:  # noqa
                 return (hist, step, f"host exception {type(e).__name__}: {str(e)[:60]}")
             if op == "define":
